@@ -27,6 +27,7 @@ def verdictStr : Verdict → String
   | .kindsDiffer a b => s!"DISAGREE kinds emf={natsStr a} spec={natsStr b}"
   | .unreadable i => s!"DISAGREE unreadable-line {i}"
   | .recordsDiffer a b => s!"DISAGREE records emf={a} spec={b}"
+  | .orderDiffers n => s!"DISAGREE order {n}"
 
 def runSteps (cfg : Config) (mult : Option Nat) : List String → List String → Option (List String)
   | [], acc => some acc.reverse
